@@ -428,7 +428,7 @@ def c11(ctx):
     ctx.assumptions = ["the real validator may be stricter than the intended one (it refuses sibling names sharing "
                        "a prefix); it may not be laxer in effect", "an apply error or a contained panic leaves the "
                        "document unchanged and is not a violation of this property"]
-    pairing = q("benign") if ctx.tier == "quick" else q("all")
+    pairing = q("benign") if ctx.tier == "quick" else q("core")
     _, summ = ctx.tlc_pipe("MC_JsonPatchGuard.tla", "MC_JsonPatchGuard.cfg", ["guard-replay"],
                            overrides={"Pairing": pairing}, label="RFC 6902 lists, pairing " + pairing, timeout=3000)
     # the model's may-alter classification is bound to the real library on the lists that validation refuses; a
